@@ -22,11 +22,17 @@ def _ex_add_fragment():
     ]
     for text, kw in configs:
         for seed in range(6):
-            s = MoleculeSampler.from_fragment_string(text, seed=seed, **kw)
-            mol = nx.Graph()
-            merge_graphs(mol, s.fragment_dict[sorted(s.fragment_dict)[seed % len(s.fragment_dict)]])
+            try:
+                s = MoleculeSampler.from_fragment_string(text, seed=seed, **kw)
+                mol = nx.Graph()
+                merge_graphs(mol, s.fragment_dict[sorted(s.fragment_dict)[seed % len(s.fragment_dict)]])
+            except Exception:      # noqa: preparation failed (a changed tree): this example is skipped
+                continue
             for step in range(1 + seed % 3):
-                ob = find_open_bonds(mol)
+                try:
+                    ob = find_open_bonds(mol)
+                except Exception:  # noqa
+                    break
                 if not ob:
                     break
                 yield {'self': s, 'molecule': mol, 'open_bonds': ob, 'fragments': s.fragments_by_bonding,
@@ -86,17 +92,22 @@ _AF = dict(
         "all(not member(x, self.terminal_bonds) for x in attr(molecule, site, 'bonding')))",
         # the partner descriptor of the new copy is consumed
         "attr(molecule, newnode, 'bonding') == without_first(partner_before, cb)",
+        # ... and so is the descriptor used at the growth site (what is left there comes from the list without its first occurrence)
+        "implies(not member(cb, self.terminal_bonds), len(attr(molecule, site, 'bonding')) <= len(site_before) - 1)",
         # atomistic fragments: if every template atom and every atom of the molecule is fit for hydrogen completion, so is every atom afterwards
     ],
+    # run-time only: what is left at the growth site comes from its list without the first occurrence of the used descriptor
+    native_ensures=["implies(not member(cb, self.terminal_bonds), all(member(x, without_first(site_before, sb)) for x in attr(molecule, site, 'bonding')))"],
     raises={'ValueError': {'when': None}, 'IndexError': {'when': None}, 'OSError': {'when': None}},
     modifies=["molecule"],
-    ghosts={'copies': ('Int', '0'), 'bonds': ('Int', '0'), 'site': ('Int', '0'), 'newnode': ('Int', '0'), 'cb': ('Str', "''"),
-            'partner_before': ('List[Str]', "['']")},
+    ghosts={'copies': ('Int', '0'), 'bonds': ('Int', '0'), 'site': ('Int', '0'), 'newnode': ('Int', '0'), 'cb': ('Str', "''"), 'sb': ('Str', "''"),
+            'partner_before': ('List[Str]', "['']"), 'site_before': ('List[Str]', "['']")},
     on_call={
         'merge_graphs': ["copies = copies + 1",
                          "partner_before = attr(arg_target_graph, target_node, 'bonding')"],
         'add_edge': [
-            "bonds = bonds + 1", "site = arg0", "newnode = arg1", "cb = kw_bonding[1]",
+            "bonds = bonds + 1", "site = arg0", "newnode = arg1", "cb = kw_bonding[1]", "sb = kw_bonding[0]",
+            "site_before = attr(molecule, arg0, 'bonding')",
             # the bond joins an atom of the existing molecule to the copy of the drawn partner atom
             "assert old(has_node(molecule, arg0)) and not old(has_node(molecule, arg1)) and arg1 == correspondence[target_node]",
             # complementary descriptors of equal order, bond order = that order, site descriptor present on the site
@@ -110,8 +121,13 @@ _AF = dict(
     },
     loops={1: Loop(over='other_bonds', modifies=[], invariant=[
         "all(not member(x, self.terminal_bonds) and member(x, other_bonds) for x in clean_bonds)",
-        "all(kind_ok(x) and ends_in_digit(x) for x in clean_bonds)"])},
-    after={"correspondence = merge_graphs(molecule, self.fragment_dict[fragname])": [
+        "all(kind_ok(x) and ends_in_digit(x) for x in clean_bonds)",
+        "len(clean_bonds) <= _i1"])},
+    after={"molecule.nodes[source_node]['bonding'].remove(bonding)": [
+        "source_node == site and bonding == sb",
+        "attr(molecule, source_node, 'bonding') == without_first(site_before, sb) and "
+        "len(attr(molecule, source_node, 'bonding')) == len(site_before) - 1"],
+           "correspondence = merge_graphs(molecule, self.fragment_dict[fragname])": [
         "has_node(self.fragment_dict[fragname], target_node) and target_node in correspondence",
         "has_node(molecule, correspondence[target_node]) and not old(has_node(molecule, correspondence[target_node])) and correspondence[target_node] != source_node",
         "has_attr(molecule, correspondence[target_node], 'bonding') and member(compl_bonding, attr(molecule, correspondence[target_node], 'bonding'))",
@@ -133,12 +149,12 @@ contract(**_AF)
 _FIT_T = [_TMPL_ATTRS, _TMPL_BONDED]
 _FIT_M = [_all(_atom_attrs, "molecule"), _all(_atom_bonded, "molecule")]
 _AFA = dict(_AF)
-_AFA.update(variant='atomistic', requires=_AF['requires'] + _FIT_T + _FIT_M, ensures=[_AF['ensures'][0]] + _FIT_M, on_call={}, ghosts={},
+_AFA.update(variant='atomistic', native_ensures=[], requires=_AF['requires'] + _FIT_T + _FIT_M, ensures=[_AF['ensures'][0]] + _FIT_M, on_call={}, ghosts={},
             after={k: v + [_FIT_M[0],
                            # atoms that were there keep their bonds; a copied hydrogen is bonded to the copy of its template neighbour
                            "all(implies(old(has_node(molecule, n)), " + _atom_bonded("molecule") + ") for n in nodes(molecule))",
                            "all(implies(not old(has_node(molecule, n)), " + _atom_bonded("molecule") + ") for n in nodes(molecule))",
-                           _FIT_M[1]] for k, v in _AF['after'].items()})
+                           _FIT_M[1]] for k, v in _AF['after'].items() if 'merge_graphs' in k})
 contract(**_AFA)
 
 
@@ -185,7 +201,11 @@ def _ex_sample():
     for text, kw, targets in configs:
         for seed in range(4):
             for t in targets:
-                yield {'self': MoleculeSampler.from_fragment_string(text, seed=seed, **kw), 'target_weight': t, 'start_fragment': None}
+                try:
+                    smp = MoleculeSampler.from_fragment_string(text, seed=seed, **kw)
+                except Exception:      # noqa: preparation failed (a changed tree): this example is skipped
+                    continue
+                yield {'self': smp, 'target_weight': t, 'start_fragment': None}
 
 
 _SA = dict(
